@@ -385,12 +385,16 @@ def westfall_young(data, test, method="minP", alternatives="greater",
         for c in range(len(test)):
             if alternatives[c] == "greater":
                 raw_p[c] = (np.sum(np.array(tv[c]) >= ts[c]) + 1) / (reps + 1)
-                sorted_t = {k: v for k, v in sorted(ts.items(), key=lambda item: item[1], reverse=False)}
             elif alternatives[c] == "two-sided":
                 raw_p[c] = (np.sum(np.array(np.abs(tv[c])) >= np.abs(ts[c])) + 1) / (reps + 1)
-                sorted_t = {k: np.abs(v) for k, v in sorted(ts.items(), key=lambda item: np.abs(item[1]), reverse=False)}
             else:
                 raise ValueError("alternatives must be either 'greater' or 'two-sided'")
+        # each hypothesis enters on its own scale: the signed statistic for
+        # 'greater', the absolute value for 'two-sided'
+        sorted_t = {k: v for k, v in sorted(
+            {c: (np.abs(ts[c]) if alternatives[c] == "two-sided" else ts[c])
+             for c in range(len(test))}.items(),
+            key=lambda item: item[1], reverse=False)}
         # iterate over permutations
         for b in range(reps):
             # iterate over sorted test statistics
@@ -399,7 +403,7 @@ def westfall_young(data, test, method="minP", alternatives="greater",
                 # replace test stats with successive maxima (of absolute
                 # values only for two-sided alternatives)
                 if alternatives[i] == "two-sided":
-                    tv[i][b] = max(np.abs(tv[i][b]), np.abs(tv[prev_i][b]))
+                    tv[i][b] = max(np.abs(tv[i][b]), tv[prev_i][b])
                 else:
                     tv[i][b] = max(tv[i][b], tv[prev_i][b])
                 prev_i = i
